@@ -239,44 +239,16 @@ fn run_isolated(stream: &str, f: &[&str], timeout_ms: i32) -> String {
     }
 }
 
-/// `$$` expands to the pid of whichever process runs the case; rewrite it to the model's placeholder.
+/// `$$` expands to the pid of whichever process runs the case: report that pid next to the observation, the comparison
+/// puts it in the place of the model's placeholder (rewriting the observation instead is ambiguous when a literal digit
+/// stands next to `$$` and the pid repeats it: `1$$` under pid 11).
 /// Only applied when the case text mentions `$$` / `${$}`.
 fn mask_pid(fields: &[&str], obs: String) -> String {
     let mentions = fields.iter().map(|f| f.matches("24").count()).sum::<usize>() >= 2;
     if !mentions {
         return obs;
     }
-    let pid = unsafe { libc::getpid() };
-    let ph = hex(&format!("{}", pid));
-    let rep = hex("4194305");
-    let b: Vec<char> = obs.chars().collect();
-    let mut out = String::new();
-    let mut i = 0;
-    while i < b.len() {
-        if b[i].is_ascii_hexdigit() && !b[i].is_ascii_uppercase() {
-            let mut j = i;
-            while j < b.len() && b[j].is_ascii_hexdigit() && !b[j].is_ascii_uppercase() {
-                j += 1;
-            }
-            let run: String = b[i..j].iter().collect();
-            let mut k = 0;
-            while k < run.len() {
-                if run[k..].starts_with(&ph) {
-                    out.push_str(&rep);
-                    k += ph.len();
-                } else {
-                    let e = std::cmp::min(k + 2, run.len());
-                    out.push_str(&run[k..e]);
-                    k = e;
-                }
-            }
-            i = j;
-        } else {
-            out.push(b[i]);
-            i += 1;
-        }
-    }
-    out
+    format!("{}\t@pid={}", obs, unsafe { libc::getpid() })
 }
 
 fn panic_text(e: Box<dyn std::any::Any + Send>) -> String {
